@@ -96,12 +96,15 @@ PROPS = {
     "C20": {
         "n": {"quick": 150, "thorough": 1500},
         "race": True,
-        "cone": ["Queue", "QueueLemmas"],
+        "cone": ["Queue", "QueueLemmas", "DecideLang", "GeneratedSkel", "QueueSrc"],
+        "diagnose": "From Scrapli Require Import QueueSrc.\nFrom Coq Require Import String List.\nOpen Scope string_scope.\nEval vm_compute in (map (fun n => (n, q_run n false)) (\"Queue.Enqueue\" :: \"Queue.Requeue\" :: \"Queue.Dequeue\" :: \"Queue.DequeueAll\" :: \"Queue.getDepth\" :: \"Queue.GetDepth\" :: nil)).\n",
         "rule": "all sequential histories over {enqueue, dequeue, dequeue-all, requeue, depth} up to length 5 (thorough: 7) plus random ones "
                 "to length 14, each run on util.Queue and on the Coq model (projected: consumer's net stream, chunks held, nil returns, "
                 "depths, panic); plus producer/consumer stress runs under the race detector across GOMAXPROCS 1/2/4/16 with the "
                 "consumer cycling through a random mix of the four consumer operations; non-trivial = history of >= 3 operations or a stress run",
-        "level_text": "Theorems C20_* hold for every chunk list, every consumer program and every interleaving (inductive invariant over the "
+        "level_text": "C20_queue_is_source: every method of util/queue.go AS TRANSLATED FROM THE SOURCE ON THIS RUN performs, in order, "
+                      "exactly the lock / mailbox / slice / depth actions the model's transitions stand for. "
+                      "Theorems C20_* hold for every chunk list, every consumer program and every interleaving (inductive invariant over the "
                       "small-step model of util/queue.go at lock/mailbox granularity; data-generic, unbounded): lossless FIFO with put-backs, no "
                       "panic, depth = chunks held, no deadlock, termination measure. Tied to the code by sequential histories (exhaustive to a "
                       "bound) compared with the model and by concurrent stress under -race with the property as oracle.",
